@@ -118,6 +118,17 @@ func NewCtx(prop, tier string, seed int64, flavour, logPath string) (*Ctx, error
 	return c, nil
 }
 
+// NewMutedCtx returns a context on which another property's group can be replayed without recording anything: its
+// evaluations, samples, controls and violations are kept to itself (and dropped). C13 uses it to harvest the tensors
+// the other checks produce.
+func NewMutedCtx(parent *Ctx, prop, group string) *Ctx {
+	c, _ := NewCtx(prop, parent.Tier, parent.Seed, parent.Flavour, "")
+	c.WorkDir = parent.WorkDir
+	c.group = group
+	c.Rng = rand.New(rand.NewSource(SeedFor(parent.Seed, prop+"/"+group)))
+	return c
+}
+
 // Sanitize makes a value JSON-encodable: non-finite floats and complex numbers become strings.
 func Sanitize(v interface{}) interface{} {
 	switch x := v.(type) {
